@@ -20,6 +20,12 @@ impl<'a> Src<'a> {
         self.pos += 1;
         b
     }
+    /// all bytes not yet consumed (for cases that are byte strings themselves, e.g. fuzzer artifacts)
+    pub fn rest(&mut self) -> &'a [u8] {
+        let r = &self.data[self.pos.min(self.data.len())..];
+        self.pos = self.data.len();
+        r
+    }
     pub fn exhausted(&self) -> bool {
         self.pos >= self.data.len()
     }
